@@ -4,6 +4,7 @@ open Lean Lentil Drv
 namespace Ops.C20
 
 instance : IntCast Float := ⟨Float.ofInt⟩
+instance instNatCastFloatC20 : NatCast Float := ⟨Float.ofNat⟩
 
 def intArr (j : Json) : R (Arr Int) := do
   let sh ← getInts j "shape"
@@ -88,6 +89,11 @@ def handle (op : String) (j : Json) : Option (R Json) :=
       let s ← getFloats j "shift"; let ang ← getFloat j "angle_rad"; let aa ← getBool j "aa"
       pure (okJ [("data", floatsJ ((idxList sh[0]! sh[1]!).map fun (i, jj) =>
         rectangleAt half sh[0]! sh[1]! w h s[0]! s[1]! (Float.cos ang) (Float.sin ang) aa i jj))])
+  | "spider" => some do
+      let sh ← getInts j "shape"; let w ← getFloat j "width"
+      let s ← getFloats j "shift"; let ang ← getFloat j "angle_rad"; let aa ← getBool j "aa"
+      pure (okJ [("data", floatsJ ((idxList sh[0]! sh[1]!).map fun (i, jj) =>
+        spiderAt half (Float.sqrt 2) sh[0]! sh[1]! w s[0]! s[1]! (Float.cos ang) (Float.sin ang) aa i jj))])
   | "hexagon" => some do
       let sh ← getInts j "shape"; let inner ← getFloat j "inner"; let s ← getFloats j "shift"
       let th ← getFloats j "theta"; let aa ← getBool j "aa"
@@ -111,8 +117,7 @@ def handle (op : String) (j : Json) : Option (R Json) :=
       let th ← getFloats j "theta"
       let s3 := Float.sqrt 3
       let inner := radius * s3 / 2
-      let size : Int := Int.ofNat ((Float.ceil ((Float.ofNat (rings * 2 + 1)) * inner * 2 + (Float.ofNat (rings * 2)) * gap
-        + Float.ofNat (pad * 2))).toUInt64.toNat)
+      let size : Int := hexSegmentsSize (fun x => Int.ofNat (Float.ceil x).toUInt64.toNat) rings pad inner gap
       let cells := segCells rings
       let kept := keptSegments rings drop.toList
       let shifts := kept.map fun s => if s = 0 then ((0 : Float), (0 : Float)) else hexToRC s3 (s3 / 2) 1.5 (cells.getD s (0, 0, 0)) (radius + gap / 2) rot
